@@ -19,6 +19,9 @@ PHASES = {
     ],
     "C15": [
         {"pkg": "e3", "test": "TestC15Crash", "phase": "C15/crash-points"},
+        # "handed to the delivery scheduler": the real SchedulePublishes + writer queue behind the consumer, with the
+        # writer stalled by a subscriber that stops reading (same paths as C02's stalled-subscriber phase)
+        {"pkg": "e2", "test": "TestC02Stalled", "phase": "C02/stalled-subscriber"},
     ],
     "C18": [
         {"pkg": "e2", "test": "TestC18HostileInput", "phase": "C18/hostile-streams"},
